@@ -22,7 +22,7 @@ def main():
     assert rc == 0, out
     res = {'property': pid, 'needs': needs}
     try:
-        rc, out = run(f'git apply --check {src}/patch.diff && git apply {src}/patch.diff', sw)
+        rc, out = run(f'(git apply --check {src}/patch.diff && git apply {src}/patch.diff) || (git apply --3way {src}/patch.diff && git reset -q)', sw)
         res['applies'] = rc == 0
         assert rc == 0, out
         rc, out = run('go build ./...', sw)
